@@ -616,6 +616,9 @@ def no_positional_turn(repo, rep):
 
 
 def run(repo, rep, tier):
+    rep.rule("R-C12-12", "the converters' density / coordinate conversions are unconditional (presence of variables and arguments aside) and linear in the density (no where / clip / fillna)")
+    from .round7b import converters_unconditional_linear
+    converters_unconditional_linear(repo, rep, "R-C12-12")
     from .round7b import hygiene
     hygiene(repo, rep, "C12", ('wavespectra.input.ww3', 'wavespectra.input.ncswan', 'wavespectra.input.wwm', 'wavespectra.input.era5', 'wavespectra.input.ndbc', 'wavespectra.input.dataset', 'wavespectra.core.utils'), falsy=True)
     rep.rule("R-C12-11", "direction / frequency grids built with arange / linspace keep NumPy's own (float) dtype or a literal float dtype: a dtype borrowed "
